@@ -178,16 +178,13 @@ def case_siblings(rep, u):
         ren[b] = a
 
     def norm(fn):
-        out = []
-        for b in fn.rpo():
-            for e in fn.blocks[b].elems:
-                s = key(e)
-                for nm in sorted(names, key=len, reverse=True):
-                    s = s.replace(nm + "(", ren.get(nm, nm) + "(")
-                for c in CMP_I | CMP_S:
-                    s = s.replace(c + "(", "CMP(")
-                out.append(s)
-        return out
+        def sub(s):
+            for nm in sorted(names, key=len, reverse=True):
+                s = s.replace(nm + "(", ren.get(nm, nm) + "(")
+            for c in CMP_I | CMP_S:
+                s = s.replace(c + "(", "CMP(")
+            return s
+        return core.alpha_keys(fn, sub)
     for a, b in PAIRS:
         fa, fb = need(u, a), need(u, b)
         rep.functions.update([a, b])
